@@ -33,25 +33,44 @@ template <typename T, int P, int K>
 static void buffer_scenario()
 {
   TransactionalBuffer<T> buf;
+  // harness-side bookkeeping for the linearizability interval of size()/empty():
+  // started counts push_back calls that may already have taken effect, done those that certainly have
+  std::atomic<int> started(0), done(0);
   std::vector<std::thread> th;
   for (int p = 0; p < P; p++)
-    th.emplace_back([&buf, p]() {
+    th.emplace_back([&buf, &started, &done, p]() {
       for (int k = 0; k < K; k++) {
+        started.fetch_add(1);
         if (k & 1) {
           T v = Make<T>::v(p, k);
           buf.push_back(v);  // const& overload
         } else
           buf.push_back(Make<T>::v(p, k));  // && overload
+        done.fetch_add(1);
       }
     });
   std::vector<T> b1 = buf.consume();
+  int lo = done.load();
   size_t s = buf.size();
+  int hi = started.load();
+  int lo2 = done.load();
   bool e = buf.empty();
+  int hi2 = started.load();
   std::vector<T> b2 = buf.consume();
   for (auto &t : th)
     t.join();
+  // quiescent: size()/empty() must be exact
+  size_t s3 = buf.size();
+  bool e3 = buf.empty();
   std::vector<T> b3 = buf.consume();
+  MC_CHECK(s3 == b3.size() && e3 == b3.empty(), "TransactionalBuffer|size()/empty() disagree with the content while no producer is running",
+      ("size " + std::to_string(s3) + " empty " + std::to_string(e3) + " consumed " + std::to_string(b3.size())).c_str());
   MC_CHECK(buf.empty() && buf.size() == 0, "TransactionalBuffer|not empty after the final consume", "size()/empty() after consuming everything");
+  // every push that had returned before size() was called is counted, none that had not yet begun after it returned
+  MC_CHECK((long)s >= (long)lo - (long)b1.size() && (long)s <= (long)hi - (long)b1.size(), "TransactionalBuffer|size() outside the interval allowed by the pushes around the call",
+      ("size " + std::to_string(s) + " completed-before " + std::to_string(lo) + " started-after " + std::to_string(hi) + " consumed " + std::to_string(b1.size())).c_str());
+  MC_CHECK(!(e && lo2 - (int)b1.size() > 0) && !(!e && hi2 - (int)b1.size() <= 0), "TransactionalBuffer|empty() contradicts the pushes around the call",
+      ("empty " + std::to_string(e) + " completed-before " + std::to_string(lo2) + " started-after " + std::to_string(hi2)).c_str());
   // oracle: union of batches == everything pushed, once each, per-producer order kept
   std::vector<int> all;
   for (auto &x : b1)
@@ -124,9 +143,9 @@ static void value_scenario()
 }
 
 MC_SCENARIO(buf_int_p1, 6, 8) { buffer_scenario<int, 1, 2>(); }
-MC_SCENARIO(buf_int_p2, 4, 6) { buffer_scenario<int, 2, 2>(); }
-MC_SCENARIO(buf_int_p3, 3, 4) { buffer_scenario<int, 3, 2>(); }
-MC_SCENARIO(buf_str_p2, 4, 5) { buffer_scenario<std::string, 2, 2>(); }
+MC_SCENARIO(buf_int_p2, 3, 5) { buffer_scenario<int, 2, 2>(); }
+MC_SCENARIO(buf_int_p3, 2, 3) { buffer_scenario<int, 3, 2>(); }
+MC_SCENARIO(buf_str_p2, 3, 4) { buffer_scenario<std::string, 2, 2>(); }
 MC_SCENARIO(buf_str_p1k3, 5, 7) { buffer_scenario<std::string, 1, 3>(); }
 MC_SCENARIO(val_int, 6, 8) { value_scenario<int, 2>(); }
 MC_SCENARIO(val_str, 6, 7) { value_scenario<std::string, 2>(); }
